@@ -210,6 +210,15 @@ def check_C05(c):
         for _ in range(2):
             jobs.append(('tr_rearrange', dict(node=jn, meta=meta, key=c.rng.choice(keys + ['inverted-last']), af=c.rng.random() < 0.5,
                                               seed=c.rng.randrange(1000), **_mdl(c, ['default', 'amr', 'miniamr'], 0.1))))
+    # roles that exercise the sort keys: numeric suffixes (op2 < op10, op02), digits inside the name, bare numbers, inverted roles
+    numroles = [':op1', ':op2', ':op10', ':op02', ':op3', ':ARG0', ':ARG1', ':ARG2', ':ARG10', ':a1b', ':a1b2', ':x2y10', ':x2y9', ':1', ':10',
+                ':2', ':op', ':ARG1-of', ':ARG0-of', ':snt2-of', ':snt10-of', ':mod', ':Z', ':a', ':op1-of']
+    for i in range(_q(c, 700, 15000)):
+        cfg = gen.TreeCfg(wellformed=True, roles=numroles, max_nodes=5, max_width=6, max_depth=3, p_aln=0.0, p_invert=0.0, p_meta=0.0,
+                          exotic_symbols=0.0, p_string=0.05)
+        node, meta = gen.random_tree(c.rng, cfg)
+        jobs.append(('tr_rearrange', dict(node=gen.node_to_json(node), meta=meta, key=c.rng.choice(['alphanumeric', 'canonical', 'alphanumeric', 'inverted-last', 'original']),
+                                          af=c.rng.random() < 0.4, model=c.rng.choice(['default', 'amr']))))
     for tr, epi, vs in _decoded_graphs(c, _q(c, 700, 15000)):
         if not vs:
             continue
